@@ -3,6 +3,7 @@
   Request: `<op> key=value key=value ...`; byte strings in hex (`-` = empty).
 -/
 import Msmart.Driver.AC
+import Msmart.Driver.Dev
 
 open Msmart Msmart.Driver
 
@@ -12,6 +13,9 @@ def handle (line : String) : String :=
   | [] => "bad-op"
   | op :: t =>
     match acOp op t with
+    | some r => r
+    | none =>
+    match devOp op t with
     | some r => r
     | none => "bad-op"
 
